@@ -17,6 +17,7 @@ functions following the recursion of the pass: every cursor update `p ↦ p'` mu
 `noWrap_iff`) and every offset stored in an ELF32 field must be `< 2^32`.
 -/
 import ElfioVerif.Lemmas.Layout
+import ElfioVerif.Lemmas.LayoutNested
 import ElfioVerif.Lemmas.ValidateL
 namespace ElfioVerif.C04
 open ElfioVerif Gen
@@ -562,14 +563,199 @@ theorem save_nested_equidistant (o : Obj) (os : OStream) (r : SaveRes) (hdr : By
   rw [e3, hva]
   bv_omega
 
-/-! ### what is not proved -/
+/-- **Members of a nested segment lie inside it, and its memory size covers their file span.**
+    `n` is a selected nested segment: at its turn (`layoutNestedB selN`) it starts at its already
+    generated first member, all its members have been generated, each one (unless SHT_NULL-typed)
+    starts at or after the running file end (`wsdStepNested`: the subtraction
+    `(sec_offset − seg_start_pos) − segment_filesize` of `write_segment_data` does not wrap — members
+    listed in file order), and `segDom false false` holds (members count towards the memory size,
+    which neither wraps nor exceeds the class's field).  Then every member `s` of `n` in the saved
+    object that is not SHT_NULL-typed has `p_offset ≤ sh_offset`; if it is not SHT_NOBITS,
+    `sh_offset + sh_size ≤ p_offset + p_filesz`; and `(sh_offset − p_offset) + sh_size ≤ p_memsz`.
+    No enclosing segment is mentioned: the arithmetic only uses the members' offsets. -/
+theorem save_nested_members (o : Obj) (os : OStream) (r : SaveRes) (hdr : Bytes)
+    (hs : save o os = .ok r) (hok : r.ok = true) (hh : o.hdr = some hdr)
+    (hn : o.secs.length < 65536)
+    (h0 : ∀ (i : Nat) (s : SecBuf), o.secs[i]? = some s → s.Occ → s.index ≠ 0)
+    (hnw : layoutNW (preSave o) hdr = true) (hnd : (o.segs.map (·.index)).Nodup)
+    (selN : Nat → Bool) (hnest : layoutNestedB selN (preSave o) hdr = true)
+    (n : Seg) (hsn : n ∈ r.obj.segs) (hselN : selN n.index = true) :
+    ∀ idx ∈ n.secs, ∀ (s : SecBuf), r.obj.secs[idx.toNat]? = some s → s.stype ≠ BitVec.ofNat 32 SHT_NULL →
+      n.offset.toNat ≤ s.offset.toNat ∧
+      (s.stype ≠ BitVec.ofNat 32 SHT_NOBITS → s.endN ≤ n.offset.toNat + n.filesz.toNat) ∧
+      s.offset.toNat - n.offset.toNat + s.size.toNat ≤ n.memsz.toNat := by
+  obtain ⟨res, hl, hsegs, -, he⟩ := save_secs_hdr o os r hdr hs hok hh
+  rw [hsegs] at hsn
+  have hn' : (preSave o).secs.length < 65536 := by rw [preSave_length]; exact hn
+  have h0' := preSave_h0 o h0
+  intro idx hidx s hk hnn
+  obtain ⟨s', hs', hhs⟩ := hdrOf_getElem? he idx.toNat s hk
+  simp only [hdrOf, Prod.mk.injEq] at hhs
+  obtain ⟨e1, e2, e3, -, -, -, -⟩ := hhs
+  have := final_nested_members (preSave o) hdr res hl hnw hn' h0' hnd selN hnest n hsn hselN idx hidx s' hs'
+    (by rw [e3]; exact hnn)
+  unfold SecBuf.endN at *
+  rw [← e1, ← e2, ← e3]
+  exact this
 
-/-- NOT PROVED (kept visible): for a *nested* segment (members generated by an enclosing segment)
-    the remaining member clauses — members inside the nested segment's file range, its memory size
-    covering them, `p_offset ≡ p_vaddr (mod p_align)` (needs "the nested alignment divides the
-    enclosing one").  They need the arithmetic of the `wsd_gap_generated` branch (the running sizes
-    are re-derived from the members' offsets).  Proved for nested segments: `save_memsz_ge_filesz`
-    and `save_nested_equidistant`; the correspondence check and the oracle cover the rest. -/
+/-- **The nested segment, complete** (the statement `NestedSegmentStatement` asks for, under the
+    hypotheses it needs).  `n` nested as in `save_nested_members`; every member of `n` is a member of
+    the selected flat segment `e` (`layoutDomB false false selE`).  Then `n` starts at its first
+    member `sf`, and if `sf` occupies file space and `n.vaddr = sf.addr` ("a nested segment starts at
+    a member's address"):
+    * every file-occupying member `s` of `n` is equidistant, lies inside `[p_offset, p_offset +
+      p_filesz)`, and `p_memsz` covers it: `(sh_addr − p_vaddr) + sh_size ≤ p_memsz`;
+    * if the enclosing alignment `A = max(e.p_align, 1)` is a power of two (`2^64 % A = 0`) and the
+      nested alignment divides it (`A % max(n.p_align, 1) = 0`):
+      `n.p_offset ≡ n.p_vaddr (mod max(n.p_align, 1))`. -/
+theorem save_nested_segment (o : Obj) (os : OStream) (r : SaveRes) (hdr : Bytes)
+    (hs : save o os = .ok r) (hok : r.ok = true) (hh : o.hdr = some hdr)
+    (hn : o.secs.length < 65536)
+    (h0 : ∀ (i : Nat) (s : SecBuf), o.secs[i]? = some s → s.Occ → s.index ≠ 0)
+    (hnw : layoutNW (preSave o) hdr = true) (hnd : (o.segs.map (·.index)).Nodup)
+    (selE selN : Nat → Bool) (hdom : layoutDomB false false selE (preSave o) hdr = true)
+    (hnest : layoutNestedB selN (preSave o) hdr = true)
+    (e n : Seg) (he : e ∈ r.obj.segs) (hsn : n ∈ r.obj.segs)
+    (hselE : selE e.index = true) (hselN : selN n.index = true)
+    (hsub : ∀ idx ∈ n.secs, idx ∈ e.secs) :
+    ∃ f sf, n.secs.head? = some f ∧ r.obj.secs[f.toNat]? = some sf ∧ n.offset = sf.offset ∧
+      (sf.Occ → n.vaddr = sf.addr →
+        (∀ idx ∈ n.secs, ∀ (s : SecBuf), r.obj.secs[idx.toNat]? = some s → s.Occ →
+          s.offset - n.offset = s.addr - n.vaddr ∧
+          n.offset.toNat ≤ s.offset.toNat ∧ s.endN ≤ n.offset.toNat + n.filesz.toNat ∧
+          (s.addr - n.vaddr).toNat + s.size.toNat ≤ n.memsz.toNat) ∧
+        (18446744073709551616 % (max e.align.toNat 1) = 0 →
+          (max e.align.toNat 1) % (max n.align.toNat 1) = 0 →
+          n.offset.toNat % (max n.align.toNat 1) = n.vaddr.toNat % (max n.align.toNat 1))) := by
+  obtain ⟨f, sf, hhead, hsf, hoff, hequi⟩ := save_nested_equidistant o os r hdr hs hok hh hn h0 hnw hnd selE selN
+    hdom (layoutNestedB_start selN _ _ hnest) e n he hsn hselE hselN hsub
+  have hmem := save_nested_members o os r hdr hs hok hh hn h0 hnw hnd selN hnest n hsn hselN
+  refine ⟨f, sf, hhead, hsf, hoff, fun hfo hva => ⟨?_, ?_⟩⟩
+  · intro idx hidx s hk ho
+    have eq := hequi hfo hva idx hidx s hk ho
+    obtain ⟨m1, m2, m3⟩ := hmem idx hidx s hk ho.2.1
+    have m2' := m2 ho.1
+    refine ⟨eq, m1, m2', ?_⟩
+    have : (s.addr - n.vaddr).toNat = s.offset.toNat - n.offset.toNat := by
+      rw [← eq]; bv_omega
+    omega
+  · intro hA hm
+    have hfm : f ∈ n.secs := by
+      cases hq : n.secs with
+      | nil => rw [hq] at hhead; exact nomatch hhead
+      | cons a b => rw [hq] at hhead; simp only [List.head?_cons, Option.some.injEq] at hhead; subst hhead; exact List.mem_cons_self
+    have hfe : f ∈ e.secs := hsub f hfm
+    have hne : e.secs ≠ [] := fun e0 => by rw [e0] at hfe; exact nomatch hfe
+    obtain ⟨-, fc, fe⟩ := save_segments false false o os r hdr hs hok hh hn h0 hnw hnd selE hdom e he hselE
+    have eqf := (fe f hfe sf hsf).1 hfo
+    have hal : e.align.toNat ≤ 9223372036854775808 := by
+      have := le_half_of_dvd _ hA (by have := e.align.isLt; omega)
+      omega
+    have hc := fc hne hal
+    rw [hoff, hva]
+    exact congr_of_equidistant sf.offset sf.addr e.offset e.vaddr _ _ hA hm eqf hc
+
+/-- **What `validate` needs, nested PT_LOAD segments included.**  As `save_layoutOk`, but a PT_LOAD
+    segment with file size > 0 may also be a *nested* one (`selN`, `segNestedStartB`: it starts at
+    its already generated first member `sf`), provided `sf` occupies file space and carries the
+    segment's address (`n.vaddr = sf.addr` — "a nested segment starts at a member's address"):
+    the section containing the segment's first file byte is then `sf` itself (disjointness). -/
+theorem save_layoutOk_nested (o : Obj) (os : OStream) (r : SaveRes) (hdr : Bytes)
+    (hs : save o os = .ok r) (hok : r.ok = true) (hh : o.hdr = some hdr)
+    (hn : o.secs.length < 65536)
+    (h0 : ∀ (i : Nat) (s : SecBuf), o.secs[i]? = some s → s.Occ → s.index ≠ 0)
+    (hnull0 : ∀ s ∈ o.secs, s.stype = BitVec.ofNat 32 SHT_NULL → s.size = 0)
+    (hnw : layoutNW (preSave o) hdr = true) (hnd : (o.segs.map (·.index)).Nodup)
+    (sel selN : Nat → Bool) (hdom : layoutDomB false false sel (preSave o) hdr = true)
+    (hnest : layoutSelB segNestedStartB selN (preSave o) hdr = true)
+    (hsel : ∀ g ∈ r.obj.segs, g.stype = BitVec.ofNat 32 PT_LOAD → 0 < g.filesz.toNat →
+      sel g.index = true ∨
+      (selN g.index = true ∧ ∀ f sf, g.secs.head? = some f → r.obj.secs[f.toNat]? = some sf →
+        sf.Occ ∧ g.vaddr = sf.addr)) :
+    LayoutOk r.obj := by
+  obtain ⟨hin, hdisj, hlt, -⟩ := layout_disjoint o os r hdr hs hok hh hn h0 hnw
+  have hn' : (preSave o).secs.length < 65536 := by rw [preSave_length]; exact hn
+  have h0' := preSave_h0 o h0
+  have hnull : ∀ s ∈ r.obj.secs, s.stype = BitVec.ofNat 32 SHT_NULL → s.size = 0 := by
+    intro s hm he
+    obtain ⟨res, hl, -, -, hmap⟩ := save_secs_hdr o os r hdr hs hok hh
+    obtain ⟨k, hk⟩ := List.getElem?_of_mem hm
+    obtain ⟨s', hs', hhs⟩ := hdrOf_getElem? hmap k s hk
+    obtain ⟨s0, hs0, hm0⟩ := final_orig (preSave o) hdr res hl hnw hn' h0' k s' hs'
+    obtain ⟨t0, ht0, hht⟩ := hdrOf_getElem? (preSave_hdr o) k s0 hs0
+    simp only [hdrOf, Prod.mk.injEq] at hhs hht
+    rw [← hhs.2.1, hm0.size, ← hht.2.1]
+    apply hnull0 t0 (List.mem_of_getElem? ht0)
+    rw [hht.2.2.1, ← hm0.stype, hhs.2.2.1]; exact he
+  have hocc : ∀ s ∈ r.obj.secs, s.stype ≠ BitVec.ofNat 32 SHT_NOBITS → 0 < s.size.toNat → s.Occ := by
+    intro s hm h1 h2
+    refine ⟨h1, fun e => ?_, fun e => ?_⟩
+    · rw [hnull s hm e] at h2; exact absurd h2 (by decide)
+    · rw [e] at h2; exact absurd h2 (by decide)
+  have hsh := r.obj.curPos.isLt
+  refine ⟨?_, ?_, ?_⟩
+  · intro s hm h1 h2
+    obtain ⟨k, hk⟩ := List.getElem?_of_mem hm
+    have := (hin k s hk (hocc s hm h1 h2)).2
+    unfold SecBuf.endN at this; omega
+  · intro i j a b hij hi hj hta htb hsa hsb _ _
+    have ha := hocc a (List.mem_of_getElem? hi) hta hsa
+    have hb := hocc b (List.mem_of_getElem? hj) htb hsb
+    have := hdisj i j a b (by omega) hi hj ha hb
+    unfold RangesIntersect SecBuf.endN at *
+    omega
+  · intro g hg hload hfs s hm hpb h1 h2
+    obtain ⟨res, hl, hsegs, -, he⟩ := save_secs_hdr o os r hdr hs hok hh
+    obtain ⟨k, hk⟩ := List.getElem?_of_mem hm
+    have hso : s.Occ := hocc s hm (by rw [hpb]; decide) (by omega)
+    rcases hsel g hg hload hfs with hsg | ⟨hsg, hfirst⟩
+    · rw [hsegs] at hg
+      obtain ⟨-, -, -, f4⟩ := final_segments false false (preSave o) hdr res hl hnw hn' h0' hnd sel hdom g hg hsg
+      obtain ⟨s', hs', hhs⟩ := hdrOf_getElem? he k s hk
+      have hph : lseg_is_phdr g.stype (BitVec.ofNat 16 g.secs.length) = false := by
+        rw [hload]; simp [lseg_is_phdr]; intro hc; exact absurd hc (by decide)
+      have hocc' := occ_of_hdrOf hhs
+      simp only [hdrOf, Prod.mk.injEq] at hhs
+      obtain ⟨e1, e2, -, -, e5, -, -⟩ := hhs
+      have := f4 hfs hph k s' hs' (hocc'.1 hso) (by rw [e1]; exact h1) (by unfold SecBuf.endN; rw [e1, e2]; exact h2)
+      rw [e1, e5] at this
+      bv_omega
+    · have hg' := hg
+      rw [hsegs] at hg'
+      obtain ⟨f, sf', hhead, hsf', hoff⟩ := final_nested_start (preSave o) hdr res hl hnw hn' h0' hnd selN hnest g hg' hsg
+      obtain ⟨sf, hsf, hhsf⟩ : ∃ sf, r.obj.secs[f.toNat]? = some sf ∧ hdrOf sf = hdrOf sf' := by
+        have h1' : (r.obj.secs.map hdrOf)[f.toNat]? = some (hdrOf sf') := by
+          rw [he, List.getElem?_map, hsf']; rfl
+        rw [List.getElem?_map] at h1'
+        cases hq : r.obj.secs[f.toNat]? with
+        | none => rw [hq] at h1'; exact nomatch h1'
+        | some t0 => rw [hq] at h1'; exact ⟨t0, rfl, by simpa using h1'⟩
+      simp only [hdrOf, Prod.mk.injEq] at hhsf
+      obtain ⟨hfo, hva⟩ := hfirst f sf hhead hsf
+      have eoff : g.offset = sf.offset := by rw [hoff, hhsf.1]
+      by_cases hkf : k = f.toNat
+      · subst hkf
+        rw [hsf] at hk; simp only [Option.some.injEq] at hk; subst hk
+        rw [eoff, hva]; bv_omega
+      · have := hdisj k f.toNat s sf hkf hk hsf hso hfo
+        have hsz : 0 < sf.size.toNat := by
+          have := hfo.2.2
+          rcases Nat.eq_zero_or_pos sf.size.toNat with h' | h'
+          · exact absurd (BitVec.eq_of_toNat_eq (by rw [h']; rfl)) this
+          · exact h'
+        unfold SecBuf.endN at this
+        rw [eoff] at h1 h2
+        omega
+
+/-! ### the statement first written down for nested segments, and why it needed one more hypothesis -/
+
+/-- The statement as it was first written (kept visible).  It is **false** as it stands
+    (`nestedSegmentStatement_false` below): nothing in its hypotheses says that the members of the
+    nested segment are listed in file order, and with a descending member list the subtraction
+    `(sec_offset − seg_start_pos) − segment_filesize` wraps.  With the order hypothesis
+    (`layoutNestedB`, which contains `wsdStepNested`) it is `save_nested_members` /
+    `save_nested_segment`; the congruence clause additionally needs "the nested alignment divides
+    the enclosing one" (`nested_congruence_witness`). -/
 def NestedSegmentStatement : Prop :=
   ∀ (o : Obj) (os : OStream) (r : SaveRes) (hdr : Bytes),
     save o os = .ok r → r.ok = true → o.hdr = some hdr → o.secs.length < 65536 →
@@ -690,5 +876,103 @@ theorem memsz_witness :
       { stype := 1, vaddr := 0x400000, align := 0x1000, secs := [2], index := 0 } = false ∧
     layoutIs exObj exHdr coversAll = true := by
   decide
+
+/-! ### nested segments: non-vacuity and the two witnesses -/
+
+/-- `exNested` meets the hypotheses of `save_nested_members` / `save_nested_segment` (enclosing
+    segment 0, nested segment 1; alignments 0x1000 and 4) -/
+example :
+    layoutNW (preSave exNested) exHdr = true ∧ (exNested.segs.map (·.index)).Nodup ∧
+    layoutDomB false false (fun i => i == 0) (preSave exNested) exHdr = true ∧
+    layoutNestedB (fun i => i == 1) (preSave exNested) exHdr = true ∧
+    18446744073709551616 % (max (0x1000#64).toNat 1) = 0 ∧ (max (0x1000#64).toNat 1) % (max (4#64).toNat 1) = 0 := by
+  refine ⟨by decide, by decide, by decide, by decide, by decide, by decide⟩
+
+/-- a PT_LOAD over `.text` and `.note` (a hole of 40 bytes between them) and a PT_NOTE whose member
+    list is `[.note, .text]` — *descending* file order (outside the writer's domain: "sections of a
+    segment listed in address order") -/
+def exNestedRev : Obj :=
+  { cls := .c64, enc := .lsb, hdr := some exHdr,
+    secs := [ { SecBuf.fresh .c64 0 with index := 0 },
+              { SecBuf.fresh .c64 3 with index := 1, size := 17, addrAlign := 1 },
+              { SecBuf.fresh .c64 1 with index := 2, size := 24, addrAlign := 16, flags := 6,
+                                         addr := 0x401000, addrSet := true },
+              { SecBuf.fresh .c64 7 with index := 3, size := 10, addrAlign := 4, flags := 2,
+                                         addr := 0x401040, addrSet := true } ],
+    segs := [ { stype := 1, vaddr := 0x401000, align := 0x1000, secs := [2, 3], index := 0 },
+              { stype := 4, vaddr := 0x401040, align := 4, secs := [3, 2], index := 1 } ] }
+
+/-- what `save exNestedRev` leaves: the PT_NOTE starts at `.note` (0x1040), *behind* its member
+    `.text` (0x1000), and its sizes are the wrapped `2^64 − 40` -/
+def exNestedRevBad (o : Obj) : Bool :=
+  match o.segs[1]?, o.secs[2]? with
+  | some n, some s =>
+    n.index == 1 && n.secs.contains 2 && decide s.Occ && decide (s.offset.toNat < n.offset.toNat) &&
+      n.filesz == 0xffffffffffffffd8#64
+  | _, _ => false
+
+/-- **`NestedSegmentStatement` is false** : `exNestedRev` satisfies every hypothesis of the statement
+    (its `save` succeeds, no wrap-around of the cursor, `segDom false false` at every turn, the
+    PT_NOTE starts at its generated first member), yet `.text`, a file-occupying member of the
+    PT_NOTE, starts before the PT_NOTE's `p_offset`.  The missing hypothesis is the member order
+    (`wsdStepNested`). -/
+theorem nestedSegmentStatement_false : ¬ NestedSegmentStatement := by
+  intro H
+  have hrun : (match save exNestedRev {} with
+      | .ok r => r.ok && exNestedRevBad r.obj
+      | .error _ => false) = true := by decide +kernel
+  cases hs : save exNestedRev {} with
+  | error e => rw [hs] at hrun; cases hrun
+  | ok r =>
+    rw [hs] at hrun
+    simp only [Bool.and_eq_true] at hrun
+    obtain ⟨hok, hbad⟩ := hrun
+    have h0 : ∀ (i : Nat) (s : SecBuf), exNestedRev.secs[i]? = some s → s.Occ → s.index ≠ 0 := by
+      intro i s hs' ho hi
+      have : ∀ t ∈ exNestedRev.secs, t.index = 0 → ¬ t.Occ := by decide
+      exact this s (List.mem_of_getElem? hs') hi ho
+    have key := H exNestedRev {} r exHdr hs hok rfl (by decide) h0 (by decide +kernel) (by decide)
+      (by decide +kernel) (fun i => i == 1) (by decide +kernel)
+    unfold exNestedRevBad at hbad
+    cases hn : r.obj.segs[1]? with
+    | none => rw [hn] at hbad; cases hbad
+    | some n =>
+      cases hsec : r.obj.secs[2]? with
+      | none => rw [hn, hsec] at hbad; cases hbad
+      | some s =>
+        rw [hn, hsec] at hbad
+        simp only [Bool.and_eq_true, beq_iff_eq, decide_eq_true_eq, List.contains_iff_mem] at hbad
+        obtain ⟨⟨⟨⟨hi, hm⟩, ho⟩, hlt⟩, -⟩ := hbad
+        have := (key n (List.mem_of_getElem? hn) (by rw [hi]; rfl) 2 hm s hsec ho).1
+        omega
+
+/-- a PT_LOAD (alignment 4) over `.text` and `.note`, both with explicit addresses, and a nested
+    PT_NOTE with the *larger* alignment 8 over `.note` -/
+def exNestedAlign : Obj :=
+  { cls := .c64, enc := .lsb, hdr := some exHdr,
+    secs := [ { SecBuf.fresh .c64 0 with index := 0 },
+              { SecBuf.fresh .c64 3 with index := 1, size := 17, addrAlign := 1 },
+              { SecBuf.fresh .c64 1 with index := 2, size := 8, addrAlign := 4, flags := 6,
+                                         addr := 0x400004, addrSet := true },
+              { SecBuf.fresh .c64 7 with index := 3, size := 12, addrAlign := 4, flags := 2,
+                                         addr := 0x400010, addrSet := true } ],
+    segs := [ { stype := 1, vaddr := 0x400004, align := 4, secs := [2, 3], index := 0 },
+              { stype := 4, vaddr := 0x400010, align := 8, secs := [3], index := 1 } ] }
+
+/-- **The divisibility hypothesis of the congruence clause is needed** : `exNestedAlign` meets every
+    hypothesis of `save_nested_segment` (flat PT_LOAD, nested PT_NOTE in file order, starting at its
+    first member's explicit address) and the PT_LOAD's alignment 4 is a power of two, but the
+    PT_NOTE's alignment 8 does not divide it — and the saved PT_NOTE has `p_offset = 188`,
+    `p_vaddr = 0x400010`: not congruent modulo 8 (the PT_LOAD: 176 ≡ 0x400004 modulo 4). -/
+theorem nested_congruence_witness :
+    layoutNW (preSave exNestedAlign) exHdr = true ∧
+    layoutDomB false false (fun i => i == 0) (preSave exNestedAlign) exHdr = true ∧
+    layoutNestedB (fun i => i == 1) (preSave exNestedAlign) exHdr = true ∧
+    layoutIs (preSave exNestedAlign) exHdr (fun r =>
+      r.segs.map (fun g => (g.offset, g.vaddr, g.align)) == [(176, 0x400004, 4), (188, 0x400010, 8)] &&
+      r.secs.map (fun s => (s.offset, s.addr)) == [(0, 0), (200, 0), (176, 0x400004), (188, 0x400010)]) = true ∧
+    18446744073709551616 % (max (4#64).toNat 1) = 0 ∧ (max (4#64).toNat 1) % (max (8#64).toNat 1) ≠ 0 ∧
+    (188#64).toNat % 8 ≠ (0x400010#64).toNat % 8 := by
+  refine ⟨by decide +kernel, by decide +kernel, by decide +kernel, by decide +kernel, by decide, by decide, by decide⟩
 
 end ElfioVerif.C04
